@@ -4,7 +4,7 @@ import common, zoo as zoolib, filelevel, workloads
 from common import Pair, proof_stage, rebuild_tools, build_pqh, build_zoo, Lock, TRUSTED_BASE
 
 MODULE = "PQ.Props.C01"
-THEOREMS = []
+THEOREMS = ["PQ.C01.levels_roundtrip", "PQ.C01.records_roundtrip", "PQ.C01.header_roundtrip", "PQ.C01.values_roundtrip", "PQ.C01.page_roundtrip"]
 
 
 def run(chk):
